@@ -52,7 +52,7 @@ add("C04",
 
 add("C05",
     "Proved: Parse/parseJSON and all nine type parsers return (object,nil) or (nil,error) (result shape) with every nil-dereference / index / type-assertion obligation on the modelled paths discharged; loop measures for the whitespace loop and every counted loop under contract; recursion measures for the compressed-index searches, ringContainsRing and Circle.Contains/Intersects; nil-guard obligations of Empty/Rect/Valid/NumPoints of all leaf kinds and collections; thin (safety-only) contracts for the remaining query methods of every kind (DistancePoint/Rect/Line/Poly, Distance(obj), Center, accessors: generated by tools/gen_safety_contracts.py, 53 methods) and for the JSON writers (AppendJSON/JSON/String/MarshalJSON of Point, SimplePoint, LineString, Polygon, Rect, Circle, Feature, MultiPoint, MultiLineString, MultiPolygon, GeometryCollection, FeatureCollection and the helpers appendJSONPoint/Series/Extra) under the ownership invariant of the extra coordinate values (WriteInv). Every contract function's safety obligations (bounds, nil, type assertion, division) are part of its proof. Termination of the recursion cycle Parse -> parseJSON -> parseJSONFeature/GeometryCollection/FeatureCollection -> Parse is proved with lexicographic measures over the text length (relative to A-GJSON: a member's raw text is strictly shorter than its parent's). NOT proved: Line.ContainsLine (trusted; known hang F3 found by the bounded lineline suite), recursion through interface dispatch (ForEach/Contains over the object tree: axiom ATree), polynomial time.",
-    "Partial. gjson/pretty/sjson/rtree/strconv are external assumed contracts (A-GJSON, A-RTREE). parseJSONLineStringCoords/parseJSONPolygonCoords trusted. Not under contract: EmptySpatial (zero-field struct), the promoted collection.AppendJSON (never called), the index builders (rTree/rRect insert/split, qNode: trusted, bounded index suite). WriteInv is established by the constructors under contract; for parsed objects it is a stated precondition. The bounded lineline suite (watchdog per call) stands in for Line.ContainsLine termination and reports F3 as a known finding.",
+    "Partial. gjson/pretty/sjson/rtree/strconv are external assumed contracts (A-GJSON, A-RTREE). parseJSONLineStringCoords/parseJSONPolygonCoords trusted. Not under contract: NewMultiPolygon, four float helpers of package geo (BearingTo, RectFromCenter, DegsToSemi, SemiToDegs), the index builders (rTree/rRect insert/split, qNode: trusted, bounded index suite). WriteInv is established by the constructors under contract and by the Point parser (parseJSONPoint#post.Writable); for the other parsed kinds it is a stated precondition. The bounded lineline suite (watchdog per call) stands in for Line.ContainsLine termination and reports F3 as a known finding.",
     "DESIGN.md §5 C05", bounded="lineline,index")
 
 add("C07",
@@ -81,8 +81,8 @@ add("C11",
     "DESIGN.md §5 C11")
 
 add("C12",
-    "Proved (exact arithmetic, all inputs): translation, scaling by two, endpoint swap, operand swap and the three reflections for the kernels cross/onSeg/meet/zcross and rectangle predicates; translation/scaling for rayIn; lifted to segsMeetS, Line x Line (lineXLineSym, lineIntersectsLineSym); Move of Point/Rect/Segment, baseSeries.Move (the moved series holds exactly the translated points, keeps its closed flag, its rectangle is the box of the translated points and its index invariant holds) and Line.Move; start-vertex/closing-vertex independence of the convexity and orientation flags (C18 bridge lemmas). Re-encoding invariance of the ring/polygon predicates themselves (start vertex, direction, closing vertex) is NOT proved: it rests on the trusted leaves; the bounded symmetry suite applies 13 transformations to sampled scenes.",
-    "Partial proof + bounded stand-in (symmetry suite, oracle-free metamorphic comparison). Known: Line.ContainsLine changes its answer under reversal (F3/F4). Poly.Move without contract; that a rebuilt index answers like the old one rests on the trusted index builders (bounded index suite, Search.afterMove).",
+    "Proved (exact arithmetic, all inputs): translation, scaling by two, endpoint swap, operand swap and the three reflections for the kernels cross/onSeg/meet/zcross and rectangle predicates; translation/scaling for rayIn; lifted to segsMeetS, Line x Line (lineXLineSym, lineIntersectsLineSym); Move of Point/Rect/Segment, baseSeries.Move (the moved series holds exactly the translated points, keeps its closed flag, its rectangle is the box of the translated points and its index invariant holds) and Line.Move, Poly.Move (every ring of the result is the translate of its source ring and satisfies the ring invariant again; the non-baseSeries branches are proved unreachable under the precondition that the rings are the library's own series); the Polygon parser's rectangle shortcut is taken only for the exact corner sequence of that rectangle (RectExact); start-vertex/closing-vertex independence of the convexity and orientation flags (C18 bridge lemmas). Re-encoding invariance of the ring/polygon predicates themselves (start vertex, direction, closing vertex) is NOT proved: it rests on the trusted leaves; the bounded symmetry suite applies 13 transformations to sampled scenes.",
+    "Partial proof + bounded stand-in (symmetry suite, oracle-free metamorphic comparison). Known: Line.ContainsLine changes its answer under reversal (F3/F4). That a rebuilt index answers like the old one rests on the trusted index builders (bounded index suite, Search.afterMove).",
     "DESIGN.md §5 C12", bounded="symmetry")
 
 add("C13",
